@@ -3,7 +3,8 @@ import Tahoe.Mutable.Serializer
 /-! Driver for C13.
   `ser op…`  ops: q (request, asynchronous callable) | qo / qf (callable completes synchronously ok / failing)
              | f:<i>:o / f:<i>:f (inner Deferred of op i fires) | t (eventual-queue turn)
-     → `<log> | <waiting> | <content>`  with log tokens S<i> F<i><o|f> D<i><o|f>
+             | r:<i> (attempt of op i ends in UncoordinatedWriteError, next attempt begins) | u:<i> (…and the backoffer gives up)
+     → `<log> | <waiting> | <content>`  with log tokens S<i> F<i><o|f> D<i><o|f> R<i>
   `nm call…` calls: <I|M>:<cap>:<u|i|m>   → node object ids, comma separated -/
 open Tahoe.Drv Tahoe.Serializer
 
@@ -23,12 +24,15 @@ def parseOp (t : String) : Option Op :=
   | ["qf"] => some (.req (some .fail))
   | ["f", i, r] => do pure (.fin (← i.toNat?) (← parseRes r))
   | ["t"] => some .turn
+  | ["r", i] => do pure (.retry (← i.toNat?))      -- current attempt of op i collides; next attempt begins
+  | ["u", i] => do pure (.fin (← i.toNat?) .fail)  -- current attempt collides and the backoffer gives up: the op fails
   | _ => none
 
 def showEv : Ev → String
   | .start i => s!"S{i}"
   | .finish i r => s!"F{i}{resChar r}"
   | .deliver i r => s!"D{i}{resChar r}"
+  | .retry i => s!"R{i}"
 
 def showSt (s : St) : String :=
   let log := " ".intercalate (s.core.log.map showEv)
